@@ -438,6 +438,19 @@ impl Circuit {
 
     pub fn reset<C>(&mut self, config: &CircuitBreakerConfig<C>) {
         self.transition_to(CircuitState::Closed, config);
+        // Already closed: no transition happened, but the counts must still be cleared
+        self.clear_counts();
+    }
+
+    fn clear_counts(&mut self) {
+        self.success_count = 0;
+        self.failure_count = 0;
+        self.total_count = 0;
+        self.slow_call_count = 0;
+        self.count_window.clear();
+        self.window_failure_count = 0;
+        self.window_slow_call_count = 0;
+        self.call_records.clear();
     }
 
     fn transition_to<C>(&mut self, state: CircuitState, config: &CircuitBreakerConfig<C>) {
@@ -489,14 +502,7 @@ impl Circuit {
         self.state = state;
         self.state_atomic.store(state as u8, Ordering::Release);
         self.last_state_change = std::time::Instant::now();
-        self.success_count = 0;
-        self.failure_count = 0;
-        self.total_count = 0;
-        self.slow_call_count = 0;
-        self.count_window.clear();
-        self.window_failure_count = 0;
-        self.window_slow_call_count = 0;
-        self.call_records.clear();
+        self.clear_counts();
     }
 
     fn evaluate_window<C>(&mut self, config: &CircuitBreakerConfig<C>) {
